@@ -663,6 +663,29 @@ Theorem C12_cache_uni_counts : forall (A : Type) (o : numops A) view m c e l t x
 Proof. exact @uni_counts_sound. Qed.
 Print Assumptions C12_cache_uni_counts.
 
+(** ... and in exact arithmetic they are the branch weights [count_bdd] / [count_bcdd] / [count_zbdd] of the
+    uniform-picking theorems (C13_*_uniform_prob) *)
+Theorem C12_cache_uni_counts_pick : forall s e v, sat_ref exact_ops s (nlevels s) e = Some v ->
+  match s_kind s with
+  | KBdd => Pick.count_bdd s e = v
+  | KBcdd => Pick.count_bcdd s e = v
+  | KZbdd => Pick.count_zbdd s e = v
+  | _ => True
+  end.
+Proof. exact sat_ref_pick_count. Qed.
+Print Assumptions C12_cache_uni_counts_pick.
+
+Theorem C12_cache_example_uniform :
+  cinv exact_ops ex_mgr0 (cache_new true) /\
+  Pick.view_plain ex_sat_bdd (xe (RN 4)) = Pick.CNode 0 (xe (RN 3)) (xe (RN 2)) /\
+  match uni_counts exact_ops Pick.view_plain (cache_new true) 0%N ex_sat_bdd (xe (RN 4)) with
+  | Some (ct, ce, c) => ct = 6%N /\ ce = 4%N /\ Pick.count_bdd ex_sat_bdd (xe (RN 3)) = 6%N /\
+                        PositiveMap.find 2%positive (c_map c) = Some 4%N
+  | None => False
+  end.
+Proof. exact ex_uni_counts. Qed.
+Print Assumptions C12_cache_example_uniform.
+
 (** the tag rule is necessary: each weakening has a history with a wrong count *)
 Theorem C12_cache_rule_without_gc_count_refuted :
   exists m evs, mgr_ok m /\ hist_valid m evs /\ counting_hist m evs /\
